@@ -13,7 +13,9 @@ internal/core/drand_beacon_control.go:StartFollowChain.                         
   repair = base store directly (`Stack.rawPut`, the `insecureStore`);
 * crypto is an oracle `verify : Beacon → Bool`.
 
-Variant switches (DESIGN §2.5): `roundCheck` = tryNode with the proposed round check (as-is code: false),
+Variant switches (DESIGN §2.5): `roundCheck` = tryNode refuses a streamed beacon whose round is not `last.Round+1`
+(as-is code: no such check), `rangeCheck` = on the repair path tryNode refuses rounds outside `[from, upTo]` (as-is: no
+such check),
 `followRetry` = StartFollowChain with a made `errChan` (as-is code: `var errChan chan error`, a nil channel: false).
 -/
 import Drand.Chain.Stack
@@ -47,6 +49,7 @@ structure Cfg where
   lastErr : BoltState → Bool
   mode : Mode
   roundCheck : Bool
+  rangeCheck : Bool
   followRetry : Bool
 
 /-- one write that reached the base store through a sync path (ghost history, newest first) -/
@@ -83,9 +86,8 @@ inductive TryRes where
 
 /-- the proposed check (variant `roundCheck`): sync hands beacons over in chain order -/
 def roundOk (cfg : Cfg) (resync : Bool) (from_ upTo last : Nat) (b : Beacon) : Bool :=
-  if cfg.roundCheck then
-    if resync then decide (from_ ≤ b.round ∧ b.round ≤ upTo) else decide (b.round = last + 1)
-  else true
+  if resync then (if cfg.rangeCheck then decide (from_ ≤ b.round ∧ b.round ≤ upTo) else true)
+  else (if cfg.roundCheck then decide (b.round = last + 1) else true)
 
 /-- the receive loop of `tryNode`; `last` is the local variable of that name (its round) -/
 def loop (cfg : Cfg) (resync : Bool) (from_ upTo : Nat) : Nat → Node → List Item → Node × TryRes
